@@ -294,7 +294,9 @@ fn pow(a: NRef, c: NRef, q: Q) -> R {
             return num(v, if q == Q::Exact { Q::Tol(v.abs() * 1e-9) } else { Q::Skip });
         }
         if j > u32::MAX as i64 {
-            return RV::Unspec("U3: exponent beyond 4294967295");
+            // outside C09's exponent range, so the variant is open; the value is still x^y (C10, C15)
+            let v = (i as f64).powf(j as f64);
+            return num(v, if q == Q::Exact { Q::Tol(0.0) } else { Q::Skip });
         }
         return match crate::ev_i64::pow_i128(i as i128, j as u64) {
             Some(v) => int_or_float(v, (i as f64).powf(j as f64), q),
